@@ -795,10 +795,10 @@ theorem parseDefinition_of_kind {σ : PState} (h : σ.pos.kind = .name ∨ σ.po
   rcases h with h | h | h <;> simp only [parseDefinition, bind_run, cur_run, h]
 
 theorem parseDefinition_via {σ : PState} {kw : Token} {f : P Definition} (hk : keywordToken σ = .ok (kw, σ))
-    (hkind : σ.pos.kind = .name ∨ σ.pos.kind = .string ∨ σ.pos.kind = .blockString) (hd : dispatchKeyword kw = f) :
+    (hkind : σ.pos.kind = .name ∨ σ.pos.kind = .string ∨ σ.pos.kind = .blockString) (hd : ∀ a, dispatchKeyword a kw = f) :
     parseDefinition σ = f σ := by
   rw [parseDefinition_of_kind hkind]
-  simp only [parseTypeSystemDefinition, bind_run, hk, hd]
+  simp only [parseTypeSystemDefinition, bind_run, cur_run, hk, hd]
 
 theorem desc_kw_kind {σ : PState} {desc : Option String} {p1 : Pos} {s : String} {p2 : Pos}
     (hD : DDescription σ.pos desc p1) (hK : Kw s p1 p2) :
@@ -821,18 +821,19 @@ theorem parseDefinition_cmp : Cmp parseDefinition DDefinition := by
       | subscription hk => exact ⟨_, _, hk, .inr (.inr rfl)⟩
     obtain ⟨s, p2, hK, hs⟩ := hkw
     obtain ⟨kw, hkt, hkk, hkv⟩ := keywordToken_run_kw hK
-    have hd : dispatchKeyword kw = parseOperationDefinition := by
+    have hd : ∀ a, dispatchKeyword a kw = parseOperationDefinition := by
+      intro a
       rcases hs with rfl | rfl | rfl <;> simp [dispatchKeyword, hkk, hkv]
     rw [parseDefinition_via hkt (.inl (kw_kind hK)) hd]
     exact parseOperationDefinition_cmp (.operation hOp hN hV hD hS) (.inr ⟨_, _, _, _, _, _, rfl, kw_kind hK⟩)
   | fragment hK hN hK2 hT hD hS =>
     obtain ⟨kw, hkt, hkk, hkv⟩ := keywordToken_run_kw hK
-    have hd : dispatchKeyword kw = parseFragmentDefinition := by simp [dispatchKeyword, hkk, hkv]
+    have hd : ∀ a, dispatchKeyword a kw = parseFragmentDefinition := by intro a; simp [dispatchKeyword, hkk, hkv]
     rw [parseDefinition_via hkt (.inl (kw_kind hK)) hd]
     exact parseFragmentDefinition_cmp hK hN hK2 hT hD hS rfl
   | @schema p1 dirs p2 o p3 ops p4 cl _ hK hD hO hM hne hC =>
     obtain ⟨kw, hkt, hkk, hkv⟩ := keywordToken_run_kw hK
-    have hd : dispatchKeyword kw = parseSchemaDefinition := by simp [dispatchKeyword, hkk, hkv]
+    have hd : ∀ a, dispatchKeyword a kw = parseSchemaDefinition := by intro a; simp [dispatchKeyword, hkk, hkv]
     rw [parseDefinition_via hkt (.inl (kw_kind hK)) hd]
     have e3 : reverse .braceL parseOperationTypeDefinition .braceR true (σ.at p2) = .ok (ops, (σ.at p2).at p') :=
       reverse_cmp parseOperationTypeDefinition_cmp (fun _ _ _ h => by rw [dopTypeDef_kind h]; decide)
@@ -842,7 +843,7 @@ theorem parseDefinition_cmp : Cmp parseDefinition DDefinition := by
     rfl
   | @scalar desc p1 p2 n p3 dirs _ hDe hK hN hD =>
     obtain ⟨kw, hkt, hkk, hkv⟩ := keywordToken_run hDe hK (by simp)
-    have hd : dispatchKeyword kw = parseScalarTypeDefinition := by simp [dispatchKeyword, hkk, hkv]
+    have hd : ∀ a, dispatchKeyword a kw = parseScalarTypeDefinition := by intro a; simp [dispatchKeyword, hkk, hkv]
     rw [parseDefinition_via hkt (desc_kw_kind hDe hK) hd]
     simp only [parseScalarTypeDefinition, bind_run, cur_run, parseDescription_cmp σ _ _ hDe,
       expectKeyword_of_kw (σ := σ.at p1) hK, parseName_cmp (σ.at p2) _ _ hN, parseDirectives_cmp (σ.at p3) _ _ hD,
@@ -852,12 +853,12 @@ theorem parseDefinition_cmp : Cmp parseDefinition DDefinition := by
     cases hO with
     | mk hDe hK hN hI hD hB =>
       obtain ⟨kw, hkt, hkk, hkv⟩ := keywordToken_run hDe hK (by simp)
-      have hd : dispatchKeyword kw = parseObjectTypeDefinition := by simp [dispatchKeyword, hkk, hkv]
+      have hd : ∀ a, dispatchKeyword a kw = parseObjectTypeDefinition := by intro a; simp [dispatchKeyword, hkk, hkv]
       rw [parseDefinition_via hkt (desc_kw_kind hDe hK) hd]
       simp only [parseObjectTypeDefinition, bind_run, parseObjectDef_cmp σ _ _ (.mk hDe hK hN hI hD hB), pure_run]
   | @interface desc p1 p2 n p3 dirs p4 fs _ hDe hK hN hD hB =>
     obtain ⟨kw, hkt, hkk, hkv⟩ := keywordToken_run hDe hK (by simp)
-    have hd : dispatchKeyword kw = parseInterfaceTypeDefinition := by simp [dispatchKeyword, hkk, hkv]
+    have hd : ∀ a, dispatchKeyword a kw = parseInterfaceTypeDefinition := by intro a; simp [dispatchKeyword, hkk, hkv]
     rw [parseDefinition_via hkt (desc_kw_kind hDe hK) hd]
     simp only [parseInterfaceTypeDefinition, bind_run, cur_run, parseDescription_cmp σ _ _ hDe,
       expectKeyword_of_kw (σ := σ.at p1) hK, parseName_cmp (σ.at p2) _ _ hN, parseDirectives_cmp (σ.at p3) _ _ hD,
@@ -865,7 +866,7 @@ theorem parseDefinition_cmp : Cmp parseDefinition DDefinition := by
     rfl
   | @union desc p1 p2 n p3 dirs p4 q p5 ms _ hDe hK hN hD hQ hS =>
     obtain ⟨kw, hkt, hkk, hkv⟩ := keywordToken_run hDe hK (by simp)
-    have hd : dispatchKeyword kw = parseUnionTypeDefinition := by simp [dispatchKeyword, hkk, hkv]
+    have hd : ∀ a, dispatchKeyword a kw = parseUnionTypeDefinition := by intro a; simp [dispatchKeyword, hkk, hkv]
     rw [parseDefinition_via hkt (desc_kw_kind hDe hK) hd]
     have hle := sepBy_lt (fun _ _ _ => dnamedType_lt) hS
     simp only [parseUnionTypeDefinition, bind_run, cur_run, parseDescription_cmp σ _ _ hDe,
@@ -875,7 +876,7 @@ theorem parseDefinition_cmp : Cmp parseDefinition DDefinition := by
     rfl
   | @enum desc p1 p2 n p3 dirs p4 vs _ hDe hK hN hD hB =>
     obtain ⟨kw, hkt, hkk, hkv⟩ := keywordToken_run hDe hK (by simp)
-    have hd : dispatchKeyword kw = parseEnumTypeDefinition := by simp [dispatchKeyword, hkk, hkv]
+    have hd : ∀ a, dispatchKeyword a kw = parseEnumTypeDefinition := by intro a; simp [dispatchKeyword, hkk, hkv]
     rw [parseDefinition_via hkt (desc_kw_kind hDe hK) hd]
     have e5 := braced_cmp (σ := σ.at p4) parseEnumValueDefinition_cmp
       (fun _ _ _ h => kind3_ne (denumValueDef_kind h) (.inl rfl)) (fun _ _ _ => denumValueDef_lt) hB
@@ -885,7 +886,7 @@ theorem parseDefinition_cmp : Cmp parseDefinition DDefinition := by
     rfl
   | @inputObject desc p1 p2 n p3 dirs p4 fs _ hDe hK hN hD hB =>
     obtain ⟨kw, hkt, hkk, hkv⟩ := keywordToken_run hDe hK (by simp)
-    have hd : dispatchKeyword kw = parseInputObjectTypeDefinition := by simp [dispatchKeyword, hkk, hkv]
+    have hd : ∀ a, dispatchKeyword a kw = parseInputObjectTypeDefinition := by intro a; simp [dispatchKeyword, hkk, hkv]
     rw [parseDefinition_via hkt (desc_kw_kind hDe hK) hd]
     have e5 := braced_cmp (σ := σ.at p4) parseInputValueDef_cmp
       (fun _ _ _ h => kind3_ne (dinputValueDef_kind h) (.inl rfl)) (fun _ _ _ => dinputValueDef_lt) hB
@@ -895,14 +896,14 @@ theorem parseDefinition_cmp : Cmp parseDefinition DDefinition := by
     rfl
   | @extend p1 od _ hK hO =>
     obtain ⟨kw, hkt, hkk, hkv⟩ := keywordToken_run_kw hK
-    have hd : dispatchKeyword kw = parseTypeExtensionDefinition := by simp [dispatchKeyword, hkk, hkv]
+    have hd : ∀ a, dispatchKeyword a kw = parseTypeExtensionDefinition := by intro a; simp [dispatchKeyword, hkk, hkv]
     rw [parseDefinition_via hkt (.inl (kw_kind hK)) hd]
     simp only [parseTypeExtensionDefinition, bind_run, cur_run, expectKeyword_of_kw hK, parseObjectDef_cmp (σ.at p1) _ _ hO,
       PState.at_at, loc_run, pure_run, kw_start hK]
     rfl
   | @directive desc p1 p2 a p3 n p4 args p5 p6 locs _ hDe hK hA hN hAr hK2 hL =>
     obtain ⟨kw, hkt, hkk, hkv⟩ := keywordToken_run hDe hK (by simp)
-    have hd : dispatchKeyword kw = parseDirectiveDefinition := by simp [dispatchKeyword, hkk, hkv]
+    have hd : ∀ a, dispatchKeyword a kw = parseDirectiveDefinition := by intro a; simp [dispatchKeyword, hkk, hkv]
     rw [parseDefinition_via hkt (desc_kw_kind hDe hK) hd]
     have hle := sepBy_lt (fun _ _ _ => dname_lt) hL
     simp only [parseDirectiveDefinition, bind_run, cur_run, parseDescription_cmp σ _ _ hDe,
